@@ -1,7 +1,7 @@
 #!/bin/bash
 # Build the C20 driver from the CURRENT tetrisched sources of a repo checkout.
 #   usage: build.sh <repo root> <output dir>
-# Compiles Types/Partition/SolverModel/CapacityConstraint/Expression.cpp as they are (no edits),
+# Compiles Types/Partition/SolverModel/CapacityConstraint/Expression/OptimizationPasses.cpp as they are (no edits),
 # against the sequential TBB shim in ./shim, plus driver.cpp.  Never cached across source changes:
 # the caller passes a fresh/cleaned output dir keyed by the source fingerprints.
 set -e
@@ -11,7 +11,7 @@ T="$REPO/schedulers/tetrisched"
 mkdir -p "$OUT"
 FLAGS="-std=c++20 -O0 -w -I $T/include -I $HERE/shim"
 pids=()
-for f in Types Partition SolverModel CapacityConstraint Expression; do
+for f in Types Partition SolverModel CapacityConstraint Expression OptimizationPasses; do
   g++ $FLAGS -c "$T/src/$f.cpp" -o "$OUT/$f.o" 2> "$OUT/$f.err" &
   pids+=($!)
 done
@@ -20,4 +20,4 @@ pids+=($!)
 rc=0
 for p in "${pids[@]}"; do wait "$p" || rc=1; done
 if [ $rc -ne 0 ]; then cat "$OUT"/*.err >&2; exit 1; fi
-g++ -o "$OUT/strl_driver" "$OUT"/Types.o "$OUT"/Partition.o "$OUT"/SolverModel.o "$OUT"/CapacityConstraint.o "$OUT"/Expression.o "$OUT"/driver.o -lpthread
+g++ -o "$OUT/strl_driver" "$OUT"/Types.o "$OUT"/Partition.o "$OUT"/SolverModel.o "$OUT"/CapacityConstraint.o "$OUT"/Expression.o "$OUT"/OptimizationPasses.o "$OUT"/driver.o -lpthread
